@@ -1,6 +1,6 @@
 \* trace validation on core M
-CONSTANTS NL = 7  NA0 = 5  NP0 = 2  NF = 3  MB = 3  MaxCascade = 4  MaxLevel = 999  ReAdd = TRUE
-CONSTANTS Layout <- LayoutM  Place <- PlaceM  SFlagSets <- Unused  TrackSet <- Unused
+CONSTANTS NL = 7  NA0 = 5  NP0 = 2  NF = 3  MB = 3  MaxCascade = 4  MaxLoop = 3  MaxChain = 2  MaxLevel = 999  ReAdd = TRUE
+CONSTANTS Layout <- LayoutM  Place <- PlaceM  SFlagSets <- Unused  TrackSet <- Unused  DbSet <- Unused
 SPECIFICATION TSpec
 CONSTRAINT Progress
 POSTCONDITION Report
@@ -18,4 +18,5 @@ INVARIANT ContentsUnchanged
 INVARIANT BlocksPartition
 INVARIANT BlockOrderKept
 INVARIANT NoFlagsNoExchange
+INVARIANT LookupsAgree
 CHECK_DEADLOCK FALSE
